@@ -313,6 +313,7 @@ pub struct Ctx {
     strict: bool,
     shrink_iters: u32,
     replay_times: usize,
+    sentinel: bool,
 }
 
 thread_local! {
@@ -520,12 +521,22 @@ impl Ctx {
             strict: std::env::var_os("VERIF_STRICT").is_some(),
             shrink_iters: 2000,
             replay_times: 1,
+            sentinel: false,
         }
     }
 
     /// bound on proptest shrink iterations for the following sub-checks (expensive cases: keep small)
     pub fn set_shrink_iters(&mut self, n: u32) {
         self.shrink_iters = n;
+    }
+
+    /// Crash sentinel: before every case the recipe is written to `replays/.inflight-<prop>-<sub>-<shard>.json`
+    /// (emptied when the case returns). If the code under test ABORTS the process (allocation failure, stack
+    /// overflow, abort-on-double-panic: not catchable by catch_unwind) the `check` script finds the file, replays
+    /// it in a fresh process and reports a VIOLATION when the abort reproduces. Costs one small file write per
+    /// case: enable it for checks whose cases are not tiny.
+    pub fn enable_crash_sentinel(&mut self) {
+        self.sentinel = true;
     }
 
     /// how many times `--replay` re-runs the saved case (schedule-dependent sims)
@@ -638,6 +649,9 @@ impl Ctx {
         let tier = self.tier;
         let strict = self.strict;
         let shrink_iters = self.shrink_iters;
+        let sentinel = self.sentinel;
+        let seed_for_file = self.seed;
+        let tier_name = self.tier.as_str();
         let sname = name;
         std::thread::scope(|sc| {
             for _ in 0..self.jobs {
@@ -665,11 +679,20 @@ impl Ctx {
                         let mut runner = TestRunner::new_with_rng(cfg, rng);
                         let failed = std::cell::Cell::new(false);
                         let stats_cell = std::cell::RefCell::new(&mut stats);
+                        let inflight = format!("{}/replays/.inflight-{}-{}-{}.json", verif_root(), prop, sanitize(sname), shard);
                         let res = runner.run(&strategy, |recipe| {
                             if stop.load(Ordering::SeqCst) && !failed.get() {
                                 return Ok(());
                             }
+                            if sentinel {
+                                let doc = json!({"property": prop, "sub": sname, "seed": seed_for_file, "tier": tier_name,
+                                    "signature": "process-abort", "observed": "the process aborted while this case was running", "case": serde_json::to_value(&recipe).unwrap_or(Value::Null)});
+                                let _ = std::fs::write(&inflight, doc.to_string());
+                            }
                             let (obs, r) = Self::run_case(known, prop, tier, strict, &recipe, &f);
+                            if sentinel {
+                                let _ = std::fs::write(&inflight, b"");
+                            }
                             match r {
                                 Ok(()) => {
                                     if !failed.get() {
@@ -690,6 +713,9 @@ impl Ctx {
                             }
                         });
                         drop(stats_cell);
+                        if sentinel {
+                            let _ = std::fs::remove_file(&inflight);
+                        }
                         let fail = match res {
                             Ok(()) => None,
                             Err(TestError::Fail(reason, value)) => {
